@@ -110,8 +110,8 @@ func extractFSM(c *Ctx, m fsmSpec, events []string) ([]transition, map[string]st
 				if b.Op == token.NEQ {
 					return "id!=.lastIdentifier", []string{"lastIdentifier"}, true
 				}
-				if b.Op == token.EQL {
-					return "id==.lastIdentifier", []string{"lastIdentifier"}, true
+				if b.Op == token.EQL { // the same test spelled the other way round: one atom, negated
+					return "!id!=.lastIdentifier", []string{"lastIdentifier"}, true
 				}
 			}
 			// err != nil where err comes from one of the package's Parse* decoders: a malformed packet is discarded
@@ -122,13 +122,21 @@ func extractFSM(c *Ctx, m fsmSpec, events []string) ([]transition, map[string]st
 							if b.Op == token.NEQ {
 								return "malformed", nil, true
 							}
-							return "wellformed", nil, true
+							return "!malformed", nil, true
 						}
 					}
 				}
 			}
 			if strings.HasSuffix(fx, ".restartCount") {
 				if k, ok := b.Y.(*ssa.Const); ok && k.Value != nil && k.Value.Kind() == constant.Int {
+					if kv, exact := constant.Int64Val(k.Value); exact {
+						switch {
+						case (b.Op == token.GTR && kv == 0) || (b.Op == token.GEQ && kv == 1):
+							return ".restartCount>0", []string{"restartCount"}, true
+						case (b.Op == token.LEQ && kv == 0) || (b.Op == token.LSS && kv == 1):
+							return "!.restartCount>0", []string{"restartCount"}, true
+						}
+					}
 					return fmt.Sprintf(".restartCount%s%s", b.Op, k.Value.ExactString()), []string{"restartCount"}, true
 				}
 			}
@@ -137,6 +145,21 @@ func extractFSM(c *Ctx, m fsmSpec, events []string) ([]transition, map[string]st
 		Inline: func(callee *ssa.Function) bool {
 			return flow.RecvTypeName(callee) == m.typ && callee.Pkg == sp
 		},
+	}
+	// the restart-counter helpers are one-line stores: the store itself is the action, so that the helpers may be written
+	// out at their call sites (or introduced where the store was open-coded) without changing the relation
+	spec.InstrAction = func(in ssa.Instruction) []string {
+		st, ok := in.(*ssa.Store)
+		if !ok || !strings.HasSuffix(flow.FieldOwner(st.Addr), m.typ+".restartCount") {
+			return nil
+		}
+		if strings.Contains(flow.FieldOwner(st.Val), "Config.Max") {
+			return []string{"call:initializeRestartCount"}
+		}
+		if k, isK := constInt(st.Val); isK && k == 0 {
+			return []string{"call:zeroRestartCount"}
+		}
+		return nil
 	}
 	spec.Action = func(call ssa.CallInstruction, resolve func(ssa.Value) string) string {
 		com := call.Common()
@@ -521,7 +544,9 @@ func c11RestartDiscipline(c *Ctx, m fsmSpec) {
 		})
 		c.R.Check("C11.I6.restart", load.ShortFunc(f), "restartCount-- on every path", c.P.Pos(f.Pos()), ok, "a (re)transmission does not decrement the restart counter on every path")
 	}
-	if f := c.fn("pkg/pppoe", m.typ, "initializeRestartCount"); f != nil {
+	// the counter is (re)initialised from the configured maximum: in the helper when there is one, else wherever the
+	// machine stores a non-constant, non-decrement value into it
+	if f := c.P.SSAFunc("pkg/pppoe", m.typ, "initializeRestartCount"); f != nil && len(f.Blocks) > 0 {
 		ok := false
 		flow.Instrs(f, func(in ssa.Instruction) {
 			if st, isSt := in.(*ssa.Store); isSt && strings.HasSuffix(flow.FieldOwner(st.Addr), ".restartCount") {
@@ -532,6 +557,31 @@ func c11RestartDiscipline(c *Ctx, m fsmSpec) {
 			}
 		})
 		c.R.Check("C11.I6.restart", load.ShortFunc(f), "restartCount := configured maximum", c.P.Pos(f.Pos()), ok, "the restart counter is not initialised from the configured Max-Configure/Max-Terminate")
+	} else {
+		n, bad := 0, ""
+		for _, g := range c.moduleFuncs() {
+			if flow.RecvTypeName(g) != m.typ {
+				continue
+			}
+			flow.Instrs(g, func(in ssa.Instruction) {
+				st, isSt := in.(*ssa.Store)
+				if !isSt || !strings.HasSuffix(flow.FieldOwner(st.Addr), m.typ+".restartCount") {
+					return
+				}
+				if _, isK := st.Val.(*ssa.Const); isK {
+					return
+				}
+				if bo, isB := st.Val.(*ssa.BinOp); isB && bo.Op == token.SUB {
+					return
+				}
+				if strings.Contains(flow.FieldOwner(st.Val), "Config.Max") {
+					n++
+					return
+				}
+				bad = c.P.Pos(instrPos(st))
+			})
+		}
+		c.R.Check("C11.I6.restart", "pppoe.(*"+m.typ+")", "restartCount := configured maximum", "-", n > 0 && bad == "", "the restart counter is not (only) initialised from the configured Max-Configure/Max-Terminate "+bad)
 	}
 }
 
